@@ -155,6 +155,12 @@ def subroutine_c(sr: dict) -> str:
                 params.append("void *" + pn)
             else:
                 params.append(p)
+        # the dialect's implicit locals (loop counters, EA) are locals of the routine, as they are of a behaviour
+        implicit = [v for v in ("EA", "i", "j", "k") if re.search(rf"\b{v}\b", body) and v not in pnames
+                    and not re.search(rf"\b(?:u?int(?:8|16|32|64)_t|int|unsigned|size[1248][us]_t)\s+{v}\b", body)]
+        if implicit and body.lstrip().startswith("{"):
+            decl = " uint32_t " + ", ".join(f"{v}=0" for v in implicit) + "; " + "".join(f"(void){v};" for v in implicit)
+            body = body.replace("{", "{" + decl, 1)
         fn = name + ("_impl" if byref else "")
         if byref:
             formal = [f"a{k}" for k in range(len(pnames))]
